@@ -1002,7 +1002,448 @@ def call_while_constructor_runs_cases():
         yield {"dom": "directed", "name": "call_while_constructor_runs", "how": how}
 
 
-SCENARIOS = {"call_while_constructor_runs": call_while_constructor_runs, "constructor_calls_back": constructor_calls_back, "contract_calls_same_method_of_fresh_object": contract_calls_same_method_of_fresh_object, "odd_exception_classes": odd_exception_classes, "sync_layer_over_coroutine": sync_layer_over_coroutine, "keyword_named_self": keyword_named_self, "decorating_another_function": decorating_another_function, "late_decoration_of_inheriting_override": late_decoration_of_inheriting_override, "used_before_override": used_before_override, "rewritten_file": rewritten_file, "shared_decorator": shared_decorator, "construct_inside_contract": construct_inside_contract,
+# --------------------------------------------------------------------------- round 8
+
+def member_added_between_invariants(case):
+    """a class gets an invariant, then a plain class decorator adds members (a public method, a constructor - as
+    dataclasses / attrs do), then it gets another invariant: the added members are guarded like all others"""
+    log = []
+
+    def inv_a(self):
+        log.append("a")
+        return True
+
+    def inv_b(self):
+        log.append("b")
+        return True
+
+    def add_members(cls):
+        def __init__(self, v=1):
+            self.v = v
+
+        def added_pub(self):
+            return self.v
+        if case["adds"] in ("init", "both"):
+            cls.__init__ = __init__
+        if case["adds"] in ("method", "both"):
+            cls.added_pub = added_pub
+        return cls
+
+    co = {"call": icontract.InvariantCheckEvent.CALL, "all": icontract.InvariantCheckEvent.ALL}[case["check_on"]]
+
+    class K:
+        v = 0
+
+        def existing(self):
+            return 2
+
+    K = icontract.invariant(inv_a, check_on=co)(K)
+    K = add_members(K)
+    K = icontract.invariant(inv_b, check_on=co)(K)
+    fails = []
+    del log[:]
+    o = K()
+    if sorted(log) != ["a", "b"]:
+        fails.append("after construction (members added by a class decorator between two invariants: %s) the invariants evaluated were %s, "
+                     "expected both" % (case["adds"], log))
+    for name in (["added_pub"] if case["adds"] in ("method", "both") else []) + ["existing"]:
+        del log[:]
+        getattr(o, name)()
+        if sorted(log) != ["a", "a", "b", "b"]:
+            fails.append("operation %s: invariants evaluated %s, expected each before and after" % (name, log))
+    return {"fails": fails}
+
+
+def member_added_between_invariants_cases():
+    for adds in ("method", "init", "both"):
+        for check_on in ("call", "all"):
+            yield {"dom": "directed", "name": "member_added_between_invariants", "adds": adds, "check_on": check_on}
+
+
+def integrator_snapshot_without_postcondition(case):
+    """a checker assembled through the integrator helpers (decorate_with_checker / add_*_to_checker) that carries a
+    snapshot but no postcondition: the capture is not evaluated; once a postcondition is added it is evaluated once,
+    after the preconditions and before the body"""
+    import icontract._checkers as ck
+    import icontract._types as ty
+    log = []
+
+    def pre(x):
+        log.append("pre")
+        return True
+
+    def cap(x):
+        log.append("capture")
+        return x
+
+    def post(result, OLD):
+        log.append("post")
+        return OLD.s == result
+
+    if case["async"]:
+        async def f(x):
+            log.append("body")
+            return x
+    else:
+        def f(x):
+            log.append("body")
+            return x
+
+    checker = ck.decorate_with_checker(func=f)
+    ck.add_precondition_to_checker(checker=checker, contract=ty.Contract(condition=pre))
+    ck.add_snapshot_to_checker(checker=checker, snapshot=ty.Snapshot(capture=cap, name="s"))
+
+    def call():
+        del log[:]
+        r = checker(3)
+        if case["async"]:
+            r = _drive(r)
+        return r, list(log)
+
+    fails = []
+    r, lg = call()
+    if r != 3 or lg != ["pre", "body"]:
+        fails.append("a checker with a snapshot but no postcondition: result %r, evaluations %s; expected 3, ['pre', 'body']" % (r, lg))
+    ck.add_postcondition_to_checker(checker=checker, contract=ty.Contract(condition=post))
+    r, lg = call()
+    if r != 3 or lg != ["pre", "capture", "body", "post"]:
+        fails.append("after a postcondition was added: result %r, evaluations %s; expected 3, ['pre', 'capture', 'body', 'post']" % (r, lg))
+    return {"fails": fails}
+
+
+def integrator_snapshot_without_postcondition_cases():
+    for a in (False, True):
+        yield {"dom": "directed", "name": "integrator_snapshot_without_postcondition", "async": a}
+
+
+class _BadUnit(TypeError):
+    pass
+
+
+def exception_from_new(case):
+    """an exception raised by (or for) the constructor of a class with invariants and no __init__ surfaces unchanged -
+    also when it is a TypeError"""
+    exc = _BadUnit("no such unit") if case["exc"] == "TypeErrorSubclass" else (TypeError("plain") if case["exc"] == "TypeError" else ValueError("v"))
+
+    def ok(self):
+        return True
+
+    fails = []
+    if case["shape"] == "own_new":
+        class T:
+            def __new__(cls, kelvin=0, unit="K"):
+                if unit != "K":
+                    raise exc
+                o = object.__new__(cls)
+                o.kelvin = kelvin
+                return o
+        T = icontract.invariant(ok)(T)
+        try:
+            o = T(5, unit="F")
+            got = "an object with kelvin=%r" % (o.kelvin,)
+        except BaseException as e:  # noqa: B902
+            got = "same" if e is exc else "other %s" % type(e).__name__
+        if got != "same":
+            fails.append("%s raised by __new__ of a class with invariants: expected it to surface unchanged, got %s" % (case["exc"], got))
+    else:
+        class M:
+            pass
+        Mi = icontract.invariant(ok)(type("Mi", (), {}))
+        for cls in (M, Mi):
+            try:
+                cls(1, 2)
+                res = "constructed"
+            except TypeError:
+                res = "TypeError"
+            if res != "TypeError":
+                fails.append("calling a class without parameters with arguments (%s invariants): %s, expected TypeError"
+                             % ("with" if cls is Mi else "without", res))
+    return {"fails": fails}
+
+
+def exception_from_new_cases():
+    for exc in ("TypeErrorSubclass", "TypeError", "ValueError"):
+        yield {"dom": "directed", "name": "exception_from_new", "shape": "own_new", "exc": exc}
+    yield {"dom": "directed", "name": "exception_from_new", "shape": "no_parameters", "exc": "TypeError"}
+
+
+class _Interrupt(KeyboardInterrupt):
+    pass
+
+
+def interrupt_while_message_is_built(case):
+    """a KeyboardInterrupt / SystemExit raised by user code that the library calls again while it builds the violation
+    message is never dropped: whenever it was raised, it is what the caller gets"""
+    import importlib.util
+    import os
+    import shutil
+    import tempfile
+    tmp = tempfile.mkdtemp(prefix="verif_interrupt_")
+    fails = []
+    try:
+        src = ("import icontract\n\n\n"
+               "STATE = {'n': 0, 'k': None, 'fired': None}\n\n\n"
+               "def limit():\n"
+               "    STATE['n'] += 1\n"
+               "    if STATE['n'] == STATE['k']:\n"
+               "        STATE['fired'] = STATE['exc']\n"
+               "        raise STATE['exc']\n"
+               "    return 0\n\n\n"
+               "@icontract.require(lambda xs: %s)\n"
+               "def f(xs):\n"
+               "    return xs\n" % case["cond"])
+        path = os.path.join(tmp, "interrupt_prog.py")
+        with open(path, "w") as fh:
+            fh.write(src)
+        spec = importlib.util.spec_from_file_location("verif_interrupt_%d" % (id(case) % 100000), path)
+        mod = importlib.util.module_from_spec(spec)
+        spec.loader.exec_module(mod)
+        for k in range(1, 14):
+            exc = _Interrupt("stop") if case["exc"] == "KeyboardInterrupt" else SystemExit(3)
+            mod.STATE.update(n=0, k=k, fired=None, exc=exc)
+            try:
+                mod.f([1, 2])
+                got = "returned"
+            except icontract.ViolationError:
+                got = "violation"
+            except BaseException as e:  # noqa: B902
+                got = "same" if e is exc else "other %s" % type(e).__name__
+            fired = mod.STATE["fired"] is not None
+            if fired and got != "same":
+                fails.append("%s raised at invocation %d of the user function (%s): the caller got %s" % (case["exc"], k, case["cond"], got))
+            if not fired and got != "violation":
+                fails.append("no fault at invocation %d (%s): the caller got %s, expected the violation" % (k, case["cond"], got))
+    finally:
+        shutil.rmtree(tmp, ignore_errors=True)
+    return {"fails": fails}
+
+
+def interrupt_while_message_is_built_cases():
+    for cond in ("[x for x in xs if x > limit()] == [99]", "all(x > 5 + limit() for x in xs)", "{x: limit() for x in xs} == {}",
+                 "[x for x in [limit(), 1]] == []", "limit() > 5 or len(xs) > 99"):
+        for exc in ("KeyboardInterrupt", "SystemExit"):
+            yield {"dom": "directed", "name": "interrupt_while_message_is_built", "cond": cond, "exc": exc}
+
+
+def concurrent_constructors_without_init(case):
+    """two threads construct instances of a class whose invariants are checked by the __new__ hook (no __init__ of its own):
+    while one of them is inside a slow invariant check, the other's invalid instance is still refused"""
+    import collections
+    import threading
+    entered, release = threading.Event(), threading.Event()
+
+    def small(self):
+        if self.v == 1000:
+            entered.set()
+            release.wait(5)
+        return self.v >= 0
+
+    if case["shape"] == "namedtuple":
+        P = icontract.invariant(small)(type("P", (collections.namedtuple("PBase", "v"),), {}))
+    else:
+        class P:
+            v = 0
+
+            def __new__(cls, v=0):
+                o = object.__new__(cls)
+                o.v = v
+                return o
+        P = icontract.invariant(small)(P)
+    res = {}
+
+    def slow():
+        try:
+            P(1000)
+            res["slow"] = "ok"
+        except BaseException as e:  # noqa: B902
+            res["slow"] = type(e).__name__
+
+    t = threading.Thread(target=slow)
+    t.start()
+    try:
+        if not entered.wait(5):
+            return {"fails": ["harness: the slow invariant check did not start"]}
+
+        def other():
+            try:
+                P(-1)
+                res["other"] = "constructed"
+            except icontract.ViolationError:
+                res["other"] = "violation"
+            except BaseException as e:  # noqa: B902
+                res["other"] = type(e).__name__
+
+        t2 = threading.Thread(target=other)
+        t2.start()
+        t2.join(10)
+    finally:
+        release.set()
+        t.join(10)
+    fails = []
+    if res.get("other") != "violation":
+        fails.append("P(-1) constructed in another thread while P(1000) is inside its invariant check: %s, expected a violation" % res.get("other"))
+    if res.get("slow") != "ok":
+        fails.append("P(1000): %s" % res.get("slow"))
+    return {"fails": fails}
+
+
+def concurrent_constructors_without_init_cases():
+    for shape in ("namedtuple", "own_new"):
+        yield {"dom": "directed", "name": "concurrent_constructors_without_init", "shape": shape}
+
+
+def async_def_spelling(case):
+    """`async def` written with unusual but legal spacing: the violation message of the async function equals the one of
+    the identical sync function"""
+    import importlib.util
+    import os
+    import shutil
+    import tempfile
+    tmp = tempfile.mkdtemp(prefix="verif_asyncdef_")
+    fails = []
+    try:
+        sep = {"two-blanks": "  ", "tab": "\t", "one-blank": " "}[case["sep"]]
+        src = ("import icontract\n\n\n"
+               "@icontract.require(lambda x: x > 0)\n"
+               "def f(x):\n    return x\n\n\n"
+               "@icontract.require(lambda x: x > 0)\n"
+               "async%sdef g(x):\n    return x\n\n\n"
+               "class K:\n"
+               "    def __repr__(self):\n        return 'K()'\n\n"
+               "    @icontract.require(lambda x: x > 0)\n"
+               "    def ms(self, x):\n        return x\n\n"
+               "    @icontract.require(lambda x: x > 0)\n"
+               "    async%sdef m(self, x):\n        return x\n" % (sep, sep))
+        path = os.path.join(tmp, "asyncdef_prog.py")
+        with open(path, "w") as fh:
+            fh.write(src)
+        spec = importlib.util.spec_from_file_location("verif_asyncdef_%d" % (id(case) % 100000), path)
+        mod = importlib.util.module_from_spec(spec)
+        spec.loader.exec_module(mod)
+
+        def text(thunk):
+            try:
+                thunk()
+                return "returned"
+            except icontract.ViolationError as e:
+                return "\n".join(str(e).split("\n")[1:])
+            except BaseException as e:  # noqa: B902
+                return "%s: %s" % (type(e).__name__, str(e)[:80])
+
+        for label, thunk, sync in (("async function", lambda: _drive(mod.g(-1)), lambda: mod.f(-1)),
+                                   ("async method", lambda: _drive(mod.K().m(-1)), lambda: mod.K().ms(-1))):
+            got, want = text(thunk), text(sync)
+            if got != want:
+                fails.append("`async%sdef`: the %s reports %r, the identical sync function %r" % (sep.replace("\t", "\\t"), label, got, want))
+    finally:
+        shutil.rmtree(tmp, ignore_errors=True)
+    return {"fails": fails}
+
+
+def async_def_spelling_cases():
+    for sep in ("one-blank", "two-blanks", "tab"):
+        yield {"dom": "directed", "name": "async_def_spelling", "sep": sep}
+
+
+def class_keyword_arguments(case):
+    """class keyword arguments (`class Csv(Exporter, fmt="csv")`) reach __init_subclass__ of a DBC hierarchy exactly as
+    they do for an abc.ABC hierarchy"""
+    import abc
+
+    def build(base, decorate):
+        registry = {}
+
+        class Exporter(base):
+            fmt = None
+
+            def __init_subclass__(cls, fmt=None, **kwargs):
+                super().__init_subclass__(**kwargs)
+                cls.fmt = fmt
+                if fmt is not None:
+                    registry[fmt] = cls.__name__
+
+            def export(self, x):
+                return "%s:%s" % (self.fmt, x)
+
+        if decorate:
+            Exporter.export = icontract.require(lambda x: x >= 0)(Exporter.export)
+
+        class Csv(Exporter, fmt="csv"):
+            pass
+
+        class Tsv(Csv, fmt="tsv"):
+            def export(self, x):
+                return "t" + super().export(x)
+
+        return [sorted(registry.items()), Csv.fmt, Tsv.fmt, Csv().export(1), Tsv().export(2)]
+
+    a, b = build(abc.ABC, False), build(icontract.DBC, True)
+    fails = []
+    if a != b:
+        fails.append("class keyword arguments: abc.ABC hierarchy gives %s, the icontract.DBC hierarchy with satisfied contracts %s" % (a, b))
+    return {"fails": fails}
+
+
+def class_keyword_arguments_cases():
+    yield {"dom": "directed", "name": "class_keyword_arguments"}
+
+
+def reserved_keyword_after_valid_calls(case):
+    """the reserved names are refused at EVERY call - also after calls that were fine"""
+    def post(result):
+        return result is not None
+
+    if case["kind"] == "function":
+        @icontract.ensure(post)
+        def f(x, **kwargs):
+            return x
+        call = f
+    elif case["kind"] == "async":
+        @icontract.ensure(post)
+        async def af(x, **kwargs):
+            return x
+        call = lambda *a, **k: _drive(af(*a, **k))  # noqa: E731
+    elif case["kind"] == "inherited":
+        class A(icontract.DBC):
+            @icontract.ensure(post)
+            def m(self, x, **kwargs):
+                return x
+
+        class B(A):
+            def m(self, x, **kwargs):
+                return x
+        call = B().m
+    else:
+        class C:
+            @staticmethod
+            @icontract.ensure(post)
+            def s(x, **kwargs):
+                return x
+        call = C.s
+    fails = []
+    for n_before in (0, 1, 3):
+        for _ in range(n_before):
+            call(1)
+            call(1, other=2)
+        for kw in ("result", "OLD", "_ARGS", "_KWARGS"):
+            try:
+                call(1, **{kw: 5})
+                got = "accepted"
+            except TypeError:
+                got = "TypeError"
+            except BaseException as e:  # noqa: B902
+                got = type(e).__name__
+            if got != "TypeError":
+                fails.append("%s: the keyword %s after %d valid calls: %s, expected TypeError" % (case["kind"], kw, n_before, got))
+    return {"fails": fails}
+
+
+def reserved_keyword_after_valid_calls_cases():
+    for kind in ("function", "async", "inherited", "static"):
+        yield {"dom": "directed", "name": "reserved_keyword_after_valid_calls", "kind": kind}
+
+
+SCENARIOS = {"member_added_between_invariants": member_added_between_invariants, "integrator_snapshot_without_postcondition": integrator_snapshot_without_postcondition, "exception_from_new": exception_from_new, "interrupt_while_message_is_built": interrupt_while_message_is_built, "concurrent_constructors_without_init": concurrent_constructors_without_init, "async_def_spelling": async_def_spelling, "class_keyword_arguments": class_keyword_arguments, "reserved_keyword_after_valid_calls": reserved_keyword_after_valid_calls, "call_while_constructor_runs": call_while_constructor_runs, "constructor_calls_back": constructor_calls_back, "contract_calls_same_method_of_fresh_object": contract_calls_same_method_of_fresh_object, "odd_exception_classes": odd_exception_classes, "sync_layer_over_coroutine": sync_layer_over_coroutine, "keyword_named_self": keyword_named_self, "decorating_another_function": decorating_another_function, "late_decoration_of_inheriting_override": late_decoration_of_inheriting_override, "used_before_override": used_before_override, "rewritten_file": rewritten_file, "shared_decorator": shared_decorator, "construct_inside_contract": construct_inside_contract,
              "cancelled_in_body": cancelled_in_body, "recreated_class": recreated_class}
 
 
